@@ -197,6 +197,14 @@ def _coverage(repo, rep):
                         "the file name")):
         rep.check(need in t, "R15.1", d.qualname, "the key covers %s" % what,
                   construct="base:" + what, where=L.where(d))
+    # ... the *whole* file name: it is baked into the module (__filename,
+    # reported in every error frame), so two files may share a module only
+    # if they are the same file
+    okp, shown = full_path_in_key(repo)
+    rep.check(okp, "R15.1",
+        d.qualname, "the key carries the template's complete path (only "
+        "the extension is cut off)", construct="base:full-path",
+        where=L.where(d), detail=str(shown)[:200])
     pd = repo.func("chameleon.zpt.template.PageTemplate.digest")
     t = L.text(pd.node)
     rep.check("super().digest(body, names)" in t and
@@ -211,6 +219,16 @@ def _coverage(repo, rep):
               "the module is stored under the digest of exactly what is "
               "compiled (same body, same sorted builtin names)",
               construct="cook-key", where=L.where(ck))
+
+
+def full_path_in_key(repo):
+    d = repo.func(BT + "digest")
+    contrib = [n.value for n in ast.walk(d.node) if isinstance(n, ast.Assign)
+               and src(n.targets[0]) == "digest"
+               and "filename" in src(L.inline_locals(d.node, n.value))]
+    shown = [src(L.inline_locals(d.node, c)) for c in contrib]
+    return any(x.replace(" ", "").startswith(
+        "os.path.splitext(str(self.filename))[0]+") for x in shown), shown
 
 
 def _store(repo, rep):
